@@ -31,7 +31,7 @@ type CliCase struct {
 	Extra    []string `json:"extra_args"`
 }
 
-var cliFileKinds = []string{"accepted", "accepted", "type-error", "syntax-error", "empty", "missing", "directory", "truncated", "junk"}
+var cliFileKinds = []string{"accepted", "accepted", "type-error", "syntax-error", "empty", "missing", "directory", "truncated", "junk", "long-line", "no-final-newline"}
 
 func DrawCliCase(ch Chooser) *CliCase {
 	c := &CliCase{FileArg: "p.grits"}
@@ -58,6 +58,21 @@ func DrawCliCase(ch Chooser) *CliCase {
 	case "truncated":
 		t := prog.Text()
 		c.Text = t[:ch.Intn(len(t)+1)]
+	case "long-line":
+		// a very long line (comment or blanks, beyond any line buffer) in front of, or inside, a
+		// file that is fine or has an error after the long line
+		long := []string{"// " + strings.Repeat("x", 70000), strings.Repeat(" ", 70000), "/* " + strings.Repeat("y ", 40000) + "*/"}[ch.Intn(3)]
+		rest := prog.Text()
+		switch ch.Intn(3) {
+		case 1:
+			gen.ApplyWrongAlias(prog, ch.Intn)
+			rest = prog.Text()
+		case 2:
+			rest = gen.MutateBytes(ch.Intn, rest, 2)
+		}
+		c.Text = "prc[first] : 1 = print p; close self\n" + long + "\n" + rest
+	case "no-final-newline":
+		c.Text = strings.TrimRight(prog.Text(), "\n")
 	default:
 		c.Text = gen.JunkProgram(ch.Intn)
 	}
